@@ -1157,6 +1157,28 @@ func ruleDownresUnderVoxelLock(r *Run) {
 			n++
 			k++
 			held, _ := heldAt(f, c, "voxelMu", true)
+			// a release handed out as a method value (once.Do(d.voxelMu.Unlock), a helper that is given the
+			// Unlock) and called on a way to the pass is a release too
+			if held {
+				for _, c2 := range calls(f) {
+					if _, isDefer := c2.(*ssa.Defer); isDefer {
+						continue
+					}
+					for _, a := range c2.Common().Args {
+						mc, ok := a.(*ssa.MakeClosure)
+						if !ok || !strings.Contains(mc.Fn.Name(), "Unlock$bound") || len(mc.Bindings) == 0 {
+							continue
+						}
+						if fa, ok := mc.Bindings[0].(*ssa.FieldAddr); ok {
+							if nm, _, _ := fieldName(fa); nm == "voxelMu" {
+								if findPath(f, c2, nil, func(x ssa.Instruction) bool { return x == ssa.Instruction(c) }, nil) != nil {
+									held = false
+								}
+							}
+						}
+					}
+				}
+			}
 			r.check(held, fmt.Sprintf("%s:Execute#%d:under-voxelMu", fname(f), k), "the down-res pass runs with the voxel mutex held",
 				"the function releases the voxel mutex before running the down-res pass: concurrent voxel writes to sibling blocks then rebuild the same parent blocks at once and each overwrites the other's octants, so lower levels no longer follow from level 0", w.pos(c.Pos()))
 		}
